@@ -6,6 +6,7 @@ VIOLATION line is ever printed in that case).
 """
 import concurrent.futures as cf
 import faulthandler
+import gc
 import hashlib
 import json
 import multiprocessing
@@ -49,11 +50,27 @@ def source_fingerprint(root, files):
 _ROOT = None
 
 
+_CASES_SINCE_GC = 0
+
+
 def safe_run_case(mod, case):
     """run_case, except that an exception which escapes the harness but was *raised inside the
     code under test* (innermost traceback frame under <root>/boltons) is a violation of its own
     class, not a harness error: the harness called the library somewhere it did not expect it
-    to fail.  Anything raised by harness code itself still propagates (exit 2)."""
+    to fail.  Anything raised by harness code itself still propagates (exit 2).
+
+    The cyclic garbage collector is a scheduler the simulation does not own: when it runs depends on
+    the allocation history of the process, and the finalizers it calls (``SpooledIOBase.__del__``, a
+    generator's close) execute code of the module under test -- inside a threaded run, at traced
+    instructions, i.e. as extra pre-emption points of whatever case happens to be running.  So it
+    never runs inside a case: automatic collection is off, and garbage is collected between cases."""
+    global _CASES_SINCE_GC
+    if gc.isenabled():
+        gc.disable()
+    _CASES_SINCE_GC += 1
+    if _CASES_SINCE_GC >= 64:
+        _CASES_SINCE_GC = 0
+        gc.collect()
     try:
         return mod.run_case(case)
     except Exception as e:
@@ -138,6 +155,26 @@ def _run_block(kind, start, count, want_digests):
     finally:
         faulthandler.cancel_dump_traceback_later()
     return summ
+
+
+def _history_block(start, count):
+    faulthandler.dump_traceback_later(900, exit=True)
+    mod = _MOD
+    try:
+        first = {}
+        for idx in range(start, start + count):
+            out = safe_run_case(mod, mod.gen_case(core.rng_for(_SEED, mod.PROPERTY, idx), _TIER))
+            first[idx] = (out.digest, core.viol_key(out.violation) if out.violation else None)
+        bad = []
+        for idx in reversed(range(start, start + count)):
+            out = safe_run_case(mod, mod.gen_case(core.rng_for(_SEED, mod.PROPERTY, idx), _TIER))
+            if (out.digest, core.viol_key(out.violation) if out.violation else None) != first[idx]:
+                bad.append(idx)
+        return {'bad': bad, 'n': count}
+    except BaseException:
+        return {'error': 'history block %d: %s' % (start, traceback.format_exc())}
+    finally:
+        faulthandler.cancel_dump_traceback_later()
 
 
 # ----------------------------------------------------------------------------
@@ -569,6 +606,21 @@ def selftest(mod, tier, seed, root, n=200):
             if bad:
                 raise HarnessError('%d workers: digests differ for runs %r' % (workers, bad[:5]))
         print('determinism: %d seeds x 6 executions agree' % n)
+        # history independence: a run's event log must not depend on what the process executed before it
+        # (garbage-collector finalizers, module-level memos, leaked patches): each worker executes a block
+        # forwards, then backwards, and compares
+        hist_n = int(getattr(mod, 'SELFTEST_HISTORY_RUNS', 600))
+        bad, done = [], 0
+        ctx = multiprocessing.get_context('fork')
+        with cf.ProcessPoolExecutor(max_workers=16, mp_context=ctx) as ex:
+            for r in ex.map(_history_block, [7919 * k for k in range(16)], [hist_n] * 16):
+                if 'error' in r:
+                    raise HarnessError(r['error'])
+                bad += r['bad']
+                done += r['n']
+        if bad:
+            raise HarnessError('history dependence: runs %r give another event log when executed after other runs' % bad[:5])
+        print('history independence: %d runs executed forwards then backwards in one process: identical event logs' % done)
         orc = getattr(mod, 'oracle_selftest', None)
         if orc is not None:
             print('oracle: ' + orc())
